@@ -25,6 +25,7 @@ type c02Elem struct {
 	Walk int    `json:"walk,omitempty"` // -1 none; otherwise value 0..255 written at WalkPos
 	Pos  int    `json:"walk_pos,omitempty"`
 	Name string `json:"name,omitempty"`
+	Raw  string `json:"raw_hex,omitempty"` // explicit content (structured-content corpus); Len is then its length
 }
 
 type c02Case struct {
@@ -33,6 +34,9 @@ type c02Case struct {
 }
 
 func c02Content(m *bind.Msg, s *bind.Slot, e c02Elem) []byte {
+	if e.Raw != "" {
+		return unhex(e.Raw)
+	}
 	n := e.Len
 	if s.LenSize == 0 {
 		n = s.Max
@@ -381,6 +385,44 @@ func c02Run(c *core.Ctx) {
 					}
 				}
 			}
+			// structured contents: a complete instance of every message type, EAP packets with inner lengths around the
+			// element length, length-prefixed lists (a step that interprets contents acts only on contents of the right
+			// shape) — with all other optional elements present, and alone
+			if s.LenSize > 0 && !s.Half && s.Max >= 8 && len(s.Alts) == 0 {
+				for ci, raw := range contentCorpus(spec) {
+					if !thorough && ci >= 88 && ci%4 != 0 {
+						continue // quick: every nested message, a quarter of the other shapes
+					}
+					b := []byte(raw)
+					if len(b) > s.Max {
+						b = b[:s.Max]
+					}
+					for len(b) < s.Min {
+						b = append(b, 0)
+					}
+					if len(b) == 0 {
+						continue
+					}
+					h := hexs(b)
+					run(mk(allPresent, func(e *c02Elem) {
+						if e.Slot == si {
+							e.Len, e.Raw = len(b), h
+						}
+					}))
+					if s.Optional && ci < 88 {
+						p := make([]bool, k)
+						for j, idx := range opt {
+							p[j] = idx == si
+						}
+						run(mk(p, func(e *c02Elem) {
+							if e.Slot == si {
+								e.Len, e.Raw = len(b), h
+							}
+						}))
+					}
+				}
+				c.Tick()
+			}
 			// walking values at the first and last content position
 			if !(s.Name == "ExtendedProtocolDiscriminator" || (isMsgIdentity(s.Name) && m.MsgType >= 0)) {
 				wl := lens[0]
@@ -438,9 +480,9 @@ func init() {
 		ID: "C02", Level: "model_checking", Run: c02Run,
 		Shards: func(string) int { return 16 },
 		Rule: func(tier string) string {
-			d := "presence vectors within 2 flips of 'all absent' and of 'all present at minimum'; each slot through {min, min+1, mid, max-1, max}; content patterns; walking octet values (step 5) at the first and last content position"
+			d := "presence vectors within 2 flips of 'all absent' and of 'all present at minimum'; each slot through {min, min+1, mid, max-1, max}; content patterns; walking octet values (step 5) at the first and last content position; structured contents (a complete instance of every message type, and a quarter of a corpus of EAP packets, length-prefixed lists and first-octet values) in every variable-length element with all other optional elements present"
 			if tier == "thorough" {
-				d = "presence vectors within 3 flips of both defaults and all 2^k subsets for messages with k<=12 optional slots; each slot through every legal length (two-octet fields: every legal length <= 2100 and 2^k±1); content patterns; all 256 walking values at the first and last position; all slots at maximum together"
+				d = "presence vectors within 3 flips of both defaults and all 2^k subsets for messages with k<=12 optional slots; each slot through every legal length (two-octet fields: every legal length <= 2100 and 2^k±1); content patterns; all 256 walking values at the first and last position; all slots at maximum together; the complete structured-content corpus in every variable-length element"
 			}
 			return "message values generated from the pinned tables (well-formed by construction) and built with the decoder's own allocators: " + d + ". Every value is encoded through Encode<Msg>, Gmm/GsmMessageEncode and PlainNasEncode, compared byte for byte with the table-driven reference encoding, kept while another message of the family and then the same message again are encoded through the same entry point (the octets returned first must not change, the second encoding must equal the first), decoded through the matching entry point and compared with the original by reflect.DeepEqual. A state is one message value; a transition is one encode+decode execution."
 		},
